@@ -79,6 +79,64 @@ PROPS["C07"] = {
     "harnesses": _c07,
 }
 
+_VT = ["i8", "i16", "i32", "i64", "isize", "u8", "u16", "u32", "u64", "usize", "f32", "f64"]
+_LOSSY_I64 = {"u64", "usize", "f32", "f64"}     # conversion T -> i64 is lossy somewhere
+_LOSSY_F64 = {"i64", "isize", "u64", "usize"}   # conversion T -> f64 is lossy somewhere
+_c08 = []
+for _t in _VT:
+    _vb = "every finite %s" % _t if _t.startswith("f") else "every %s" % _t
+    for _k in ["max", "min"]:
+        _c08.append(H("c08::c08_%s_i64_%s" % (_k, _t), crate="hm", unwind=3, stubs=[FMT], bounds="%s x every i64 bound" % _vb))
+        if _t in _LOSSY_I64:
+            _c08.append(H("c08::c08_%s_i64x_%s" % (_k, _t), crate="hm", unwind=3, stubs=[FMT],
+                          bounds="%s x every i64 bound, minus the region of the recorded finding" % _vb,
+                          assumes=["complement run: value outside the lossy-conversion region of the recorded finding"]))
+        _c08.append(H("c08::c08_%s_f64_%s" % (_k, _t), crate="hm", unwind=3, stubs=[FMT], bounds="%s x every finite f64 bound" % _vb))
+        if _t in _LOSSY_F64:
+            _c08.append(H("c08::c08_%s_f64x_%s" % (_k, _t), crate="hm", unwind=3, stubs=[FMT],
+                          bounds="%s x every finite f64 bound, minus the region of the recorded finding" % _vb,
+                          assumes=["complement run: |value| <= 2^53"]))
+for _t in _VT[:10]:
+    for _n, _nv in [("mult3", "3"), ("mult10", "10"), ("multm7", "-7")]:
+        _c08.append(H("c08::c08_%s_%s" % (_n, _t), crate="hm", unwind=3, stubs=[FMT], bounds="every %s != 0, divisor %s" % (_t, _nv),
+                      assumes=["value != 0 (the crate documents and tests that multiple_of rejects 0)"]))
+        if _t in _LOSSY_I64:
+            _c08.append(H("c08::c08_%sx_%s" % (_n, _t), crate="hm", unwind=3, stubs=[FMT],
+                          bounds="every %s != 0 and <= i64::MAX, divisor %s" % (_t, _nv),
+                          assumes=["complement run: value <= i64::MAX", "value != 0"]))
+_c08 += [
+    H("c08::c08_mult_any_i8", crate="hm", unwind=3, stubs=[FMT], bounds="every i8 != 0 x every i64 divisor except 0 and -1",
+      assumes=["divisor not in {0, -1}: configuration-time values for which % is undefined / overflows", "value != 0"]),
+    H("c08::c08_mult_any_u8", crate="hm", unwind=3, stubs=[FMT], bounds="every u8 != 0 x every i64 divisor except 0 and -1",
+      assumes=["divisor not in {0, -1}", "value != 0"]),
+    H("c08::c08_items", crate="hm", unwind=5, stubs=[FMT], bounds="Vec<i32> of 0..=3 items x every usize bound"),
+]
+for _l in range(5):
+    _c08.append(H("c08::c08_str_lengths%d" % _l, crate="hm", unwind=6,
+                  stubs=[FMT, "core::str::count::do_count_chars -> panics if reached (word-at-a-time path for strings >= 32 bytes; unreachable for these lengths, and reaching it would be reported)"],
+                  bounds="every well-formed UTF-8 string of exactly %d bytes x every usize bound; max_length, min_length, chars_max_length, chars_min_length" % _l,
+                  assumes=["bytes form well-formed UTF-8 (reference recogniser in the harness, cross-checked against String::from_utf8 in the same run)"]))
+PROPS["C08"] = {
+    "title": "built-in validators accept exactly the values satisfying their predicate",
+    "files": ["src/validators/maximum.rs", "src/validators/minimum.rs", "src/validators/multiple_of.rs",
+              "src/validators/max_length.rs", "src/validators/min_length.rs", "src/validators/chars_max_length.rs",
+              "src/validators/chars_min_length.rs", "src/validators/max_items.rs", "src/validators/min_items.rs"],
+    "funcs": ["validators::maximum<T,N>, minimum<T,N> for T in 10 integer types + f32 + f64, N in {i64, f64} (the two bound types "
+              "the derive macro emits)", "validators::multiple_of<T,i64>", "validators::max_length/min_length/chars_max_length/"
+              "chars_min_length<String>", "validators::max_items/min_items<Vec<i32>>"],
+    "claim": "maximum/minimum return Ok exactly when value <= bound (>= bound) in EXACT arithmetic, for every value of each numeric "
+             "Rust type and every i64 / finite f64 bound (oracle: i128 and exact integer/float comparison); multiple_of agrees with "
+             "exact divisibility (full-width values for divisors 3, 10, -7; every i64 divisor for 8-bit values); the length validators "
+             "agree with byte count / scalar count for every well-formed UTF-8 string of <= 4 bytes and every bound; item validators "
+             "for lists of <= 3. Three recorded findings (lossy `as` conversions) are matched by role key and their complements are "
+             "decided separately",
+    "not_covered": "regex (regex crate automata), multiple_of with a float bound (fmod) and with 16..64-bit values against a symbolic "
+                   "divisor (a symbolic 64-bit divider does not finish), the derive-generated invocation incl. list mode, delivery of "
+                   "the error through Response.errors, strict vs fast mode (validators are mode-free), non-finite floats",
+    "assumptions": [],
+    "harnesses": _c08,
+}
+
 NOT_APPLICABLE = {
     "C01": "not yet claimed (leaf serialization kernels planned, see DESIGN.md section 4)",
     "C02": "dynamic execution: every mechanism (collect_fields, resolve) runs on a built dynamic::Schema and its Registry; schema construction alone exceeds what CBMC finishes (Schema::new > 25 min / 9 GB, DESIGN.md section 3)",
@@ -100,5 +158,5 @@ NOT_APPLICABLE = {
     "C34": "GraphiQL page: the oracle is a JavaScript/HTML tokenizer evaluating the generated page; rendering is askama-generated code over fmt with a dependency's HTML escaper",
     "C35": "GET never mutates: behaviour of five web-framework integrations' extractors (axum/actix/poem/warp/rocket request types, async I/O)",
 }
-for _p in ["C06", "C08", "C09", "C10", "C12", "C13", "C14", "C15", "C16", "C17", "C21", "C22", "C32", "C33"]:
+for _p in ["C06", "C09", "C10", "C12", "C13", "C14", "C15", "C16", "C17", "C21", "C22", "C32", "C33"]:
     NOT_APPLICABLE.setdefault(_p, "claim under construction in this session (harnesses planned in DESIGN.md section 4); listed here until its check is registered")
